@@ -1,5 +1,6 @@
-//! Printing syntax trees back to source text, with minimal parentheses computed from the
-//! *documented* precedence table (README / property C07), not from the parser.
+//! Printing syntax trees back to source text: first to a token list, with minimal parentheses
+//! computed from the *documented* precedence table (README / property C07), not from the parser;
+//! then to text by choosing what goes into the gaps between tokens.
 
 use nederlang::verif::{Expr, Operator, Stmt};
 
@@ -65,32 +66,37 @@ pub fn float_text(f: f64) -> String {
     }
 }
 
-/// Layout knobs. The default puts one space in every gap, `;` after every non-block statement
-/// and `,` between list items.
-#[derive(Clone)]
-pub struct Layout {
-    /// separator between tokens where one is needed
-    pub gap: String,
-    /// text after a statement that is not the last of its list
-    pub stmt_sep: String,
-    /// text between list items
-    pub item_sep: String,
+#[derive(Clone, Copy, PartialEq, Debug)]
+pub enum TokKind {
+    Normal,
+    /// a `;` after a statement that the grammar lets one leave out here
+    OptSemi,
+    /// a `,` between list items that the grammar lets one leave out here
+    OptComma,
+    /// a `;` / `,` that is needed to keep the next item apart (the next item starts with ( [ or -)
+    Needed,
+}
+
+#[derive(Clone, Debug)]
+pub struct Tok {
+    pub text: String,
+    pub kind: TokKind,
+}
+
+#[derive(Clone, Default)]
+pub struct Style {
     /// print `anders als` chains without braces where the tree allows it
     pub else_if_sugar: bool,
     /// print `a = a op e` as `a op= e` where the tree allows it
     pub op_assign_sugar: bool,
+    /// wrap the n-th expression node (pre-order) in redundant parentheses
+    pub wrap_nth: Option<usize>,
 }
 
-impl Default for Layout {
-    fn default() -> Self {
-        Layout {
-            gap: " ".into(),
-            stmt_sep: "; ".into(),
-            item_sep: ", ".into(),
-            else_if_sugar: false,
-            op_assign_sugar: false,
-        }
-    }
+struct Emit<'s> {
+    toks: Vec<Tok>,
+    style: &'s Style,
+    expr_counter: usize,
 }
 
 fn is_atomic(e: &Expr) -> bool {
@@ -107,256 +113,356 @@ fn is_atomic(e: &Expr) -> bool {
     )
 }
 
-pub fn program(stmts: &[Stmt]) -> String {
-    program_with(stmts, &Layout::default())
+/// First token of the printed form of an expression (to decide whether a separator may be dropped).
+fn starts_open(e: &Expr, min: u8) -> bool {
+    match e {
+        Expr::Array { .. } => true,
+        Expr::Prefix { operator, .. } => min > 0 || matches!(operator, Operator::Subtract | Operator::Negate),
+        Expr::Int { value } => *value < 0,
+        Expr::Infix { left, operator, .. } => prec(operator) < min || starts_open(left, prec(operator)),
+        Expr::Assign { left, .. } => min > 0 || starts_open(left, 8),
+        Expr::Index { left, .. } => starts_open(left, 8),
+        Expr::Call { left, .. } => !matches!(&**left, Expr::Identifier(_)),
+        Expr::If { .. } | Expr::While { .. } | Expr::Function { .. } => min > 0,
+        _ => false,
+    }
 }
 
-pub fn program_with(stmts: &[Stmt], l: &Layout) -> String {
-    let mut s = String::new();
-    stmt_list(stmts, l, &mut s);
-    s
+fn stmt_starts_open(s: &Stmt) -> bool {
+    match s {
+        Stmt::Expr(e) => starts_open(e, 0),
+        _ => false,
+    }
 }
 
-fn stmt_list(stmts: &[Stmt], l: &Layout, s: &mut String) {
-    for (i, st) in stmts.iter().enumerate() {
-        stmt(st, l, s);
-        if i + 1 < stmts.len() {
-            match st {
-                Stmt::Block(_) => s.push_str(&l.gap),
-                _ => s.push_str(&l.stmt_sep),
+impl<'s> Emit<'s> {
+    fn t(&mut self, s: &str) {
+        self.toks.push(Tok { text: s.to_string(), kind: TokKind::Normal });
+    }
+    fn k(&mut self, s: &str, kind: TokKind) {
+        self.toks.push(Tok { text: s.to_string(), kind });
+    }
+
+    fn stmt_list(&mut self, stmts: &[Stmt]) {
+        for (i, st) in stmts.iter().enumerate() {
+            self.stmt(st);
+            if i + 1 < stmts.len() {
+                let needed = stmt_starts_open(&stmts[i + 1]);
+                match st {
+                    Stmt::Block(_) if !needed => {}
+                    _ => self.k(";", if needed { TokKind::Needed } else { TokKind::OptSemi }),
+                }
+            }
+        }
+    }
+
+    fn block(&mut self, stmts: &[Stmt]) {
+        self.t("{");
+        self.stmt_list(stmts);
+        self.t("}");
+    }
+
+    fn stmt(&mut self, st: &Stmt) {
+        match st {
+            Stmt::Expr(e) => self.expr(e, 0),
+            Stmt::Block(b) => self.block(b),
+            Stmt::Let(n, v) => {
+                self.t("stel");
+                self.t(n);
+                self.t("=");
+                self.expr(v, 0);
+            }
+            Stmt::Return(e) => {
+                self.t("antwoord");
+                self.expr(e, 0);
+            }
+            Stmt::Break => self.t("stop"),
+            Stmt::Continue => self.t("volgende"),
+        }
+    }
+
+    fn list(&mut self, items: &[Expr]) {
+        for (i, a) in items.iter().enumerate() {
+            if i > 0 {
+                let needed = starts_open(a, 0);
+                self.k(",", if needed { TokKind::Needed } else { TokKind::OptComma });
+            }
+            self.expr(a, 0);
+        }
+    }
+
+    /// `min`: the weakest binding strength that may appear here without parentheses.
+    /// 0 = anything (statement / initialiser / argument / parenthesised position).
+    fn expr(&mut self, e: &Expr, min: u8) {
+        let n = self.expr_counter;
+        self.expr_counter += 1;
+        if self.style.wrap_nth == Some(n) {
+            self.t("(");
+            self.expr_inner(e, 0);
+            self.t(")");
+        } else {
+            self.expr_inner(e, min);
+        }
+    }
+
+    fn expr_inner(&mut self, e: &Expr, min: u8) {
+        match e {
+            Expr::Int { value } => {
+                if *value < 0 {
+                    // a negative literal node has no spelling; generators never produce one
+                    self.t("(");
+                    self.t("0");
+                    self.t("-");
+                    self.t(&(*value as i128).unsigned_abs().to_string());
+                    self.t(")");
+                } else {
+                    self.t(&value.to_string())
+                }
+            }
+            Expr::Float { value } => self.t(&float_text(*value)),
+            Expr::Bool { value } => self.t(if *value { "ja" } else { "nee" }),
+            Expr::String { value } => self.t(&escape_string(value)),
+            Expr::Identifier(n) => self.t(n),
+            Expr::Prefix { operator, right } => {
+                let paren = min > 0;
+                if paren {
+                    self.t("(");
+                }
+                self.t(op_text(operator));
+                if is_atomic(right) {
+                    self.expr(right, 8);
+                } else {
+                    self.t("(");
+                    self.expr(right, 0);
+                    self.t(")");
+                }
+                if paren {
+                    self.t(")");
+                }
+            }
+            Expr::Infix { left, operator, right } => {
+                let p = prec(operator);
+                let paren = p < min;
+                if paren {
+                    self.t("(");
+                }
+                self.expr(left, p);
+                self.t(op_text(operator));
+                self.expr(right, p + 1);
+                if paren {
+                    self.t(")");
+                }
+            }
+            Expr::Assign { left, right } => {
+                let paren = min > 0;
+                if paren {
+                    self.t("(");
+                }
+                let mut sugared = false;
+                if self.style.op_assign_sugar {
+                    if let (Expr::Identifier(n), Expr::Infix { left: il, operator, right: ir }) = (&**left, &**right) {
+                        if matches!(&**il, Expr::Identifier(m) if m == n) {
+                            self.t(n);
+                            // the two characters of `+=` are two tokens of the language (`+` `=`)
+                            self.t(op_text(operator));
+                            self.t("=");
+                            self.expr_counter += 2;
+                            self.expr(ir, 0);
+                            sugared = true;
+                        }
+                    }
+                }
+                if !sugared {
+                    self.expr(left, 8);
+                    self.t("=");
+                    // the right-hand side is parsed above the level of `=`: another assignment needs parentheses
+                    self.expr(right, 2);
+                }
+                if paren {
+                    self.t(")");
+                }
+            }
+            Expr::If { condition, consequence, alternative } => {
+                let paren = min > 0;
+                if paren {
+                    self.t("(");
+                }
+                self.t("als");
+                self.expr(condition, 0);
+                self.block(consequence);
+                if let Some(a) = alternative {
+                    self.t("anders");
+                    let chain = self.style.else_if_sugar && a.len() == 1 && matches!(&a[0], Stmt::Expr(Expr::If { .. }));
+                    if chain {
+                        if let Stmt::Expr(inner) = &a[0] {
+                            self.expr(inner, 0);
+                        }
+                    } else {
+                        self.block(a);
+                    }
+                }
+                if paren {
+                    self.t(")");
+                }
+            }
+            Expr::While { condition, body } => {
+                let paren = min > 0;
+                if paren {
+                    self.t("(");
+                }
+                self.t("zolang");
+                self.expr(condition, 0);
+                self.block(body);
+                if paren {
+                    self.t(")");
+                }
+            }
+            Expr::Function { name, parameters, body } => {
+                let paren = min > 0;
+                if paren {
+                    self.t("(");
+                }
+                self.t("functie");
+                if !name.is_empty() {
+                    self.t(name);
+                }
+                self.t("(");
+                for (i, p) in parameters.iter().enumerate() {
+                    if i > 0 {
+                        self.k(",", TokKind::OptComma);
+                    }
+                    self.t(p);
+                }
+                self.t(")");
+                self.block(body);
+                if paren {
+                    self.t(")");
+                }
+            }
+            Expr::Call { left, arguments } => {
+                match &**left {
+                    Expr::Identifier(_) => self.expr(left, 8),
+                    other => {
+                        self.t("(");
+                        self.expr(other, 0);
+                        self.t(")");
+                    }
+                }
+                self.t("(");
+                self.list(arguments);
+                self.t(")");
+            }
+            Expr::Array { values } => {
+                self.t("[");
+                self.list(values);
+                self.t("]");
+            }
+            Expr::Index { left, index } => {
+                self.expr(left, 8);
+                self.t("[");
+                self.expr(index, 0);
+                self.t("]");
             }
         }
     }
 }
 
-fn block(stmts: &[Stmt], l: &Layout, s: &mut String) {
-    s.push('{');
-    if !stmts.is_empty() {
-        s.push_str(&l.gap);
-        stmt_list(stmts, l, s);
-        s.push_str(&l.gap);
-    }
-    s.push('}');
+pub fn tokens_with(stmts: &[Stmt], style: &Style) -> Vec<Tok> {
+    let mut e = Emit { toks: Vec::new(), style, expr_counter: 0 };
+    e.stmt_list(stmts);
+    e.toks
 }
 
-pub fn stmt(st: &Stmt, l: &Layout, s: &mut String) {
-    match st {
-        Stmt::Expr(e) => expr(e, 0, l, s),
-        Stmt::Block(b) => block(b, l, s),
-        Stmt::Let(n, v) => {
-            s.push_str("stel");
-            s.push_str(&l.gap);
-            s.push_str(n);
-            s.push_str(&l.gap);
-            s.push('=');
-            s.push_str(&l.gap);
-            expr(v, 0, l, s);
+pub fn tokens(stmts: &[Stmt]) -> Vec<Tok> {
+    tokens_with(stmts, &Style::default())
+}
+
+/// Number of expression nodes (for enumerating redundant-parenthesis positions).
+pub fn count_exprs(stmts: &[Stmt]) -> usize {
+    let style = Style::default();
+    let mut e = Emit { toks: Vec::new(), style: &style, expr_counter: 0 };
+    e.stmt_list(stmts);
+    e.expr_counter
+}
+
+/// Joins tokens for reading: one space in every gap except the customary tight ones.
+pub fn join_pretty(toks: &[Tok]) -> String {
+    let mut s = String::new();
+    for (i, t) in toks.iter().enumerate() {
+        if i > 0 {
+            let prev = toks[i - 1].text.as_str();
+            let cur = t.text.as_str();
+            let tight = matches!(cur, "," | ";" | ")" | "]")
+                || matches!(prev, "(" | "[")
+                || (cur == "(" && is_word(prev) && !is_keyword(prev))
+                || (cur == "[" && is_word(prev) && !is_keyword(prev))
+                || (matches!(prev, "-" | "!") && i >= 2 && is_prefix_position(&toks[i - 2].text))
+                || (matches!(prev, "-" | "!") && i == 1);
+            if !tight {
+                s.push(' ');
+            }
         }
-        Stmt::Return(e) => {
-            s.push_str("antwoord");
-            s.push_str(&l.gap);
-            expr(e, 0, l, s);
-        }
-        Stmt::Break => s.push_str("stop"),
-        Stmt::Continue => s.push_str("volgende"),
+        s.push_str(&t.text);
     }
+    s
+}
+
+fn is_word(s: &str) -> bool {
+    s.chars().next().map(|c| c.is_alphabetic() || c == '_').unwrap_or(false)
+}
+
+fn is_keyword(s: &str) -> bool {
+    matches!(s, "als" | "anders" | "antwoord" | "functie" | "zolang" | "stel" | "ja" | "nee" | "stop" | "volgende")
+}
+
+fn is_prefix_position(before: &str) -> bool {
+    matches!(
+        before,
+        "(" | "[" | "," | ";" | "=" | "{" | "+" | "-" | "*" | "/" | "%" | "<" | ">" | "<=" | ">=" | "==" | "!=" | "&&" | "||" | "!"
+            | "antwoord" | "als" | "zolang"
+    )
+}
+
+/// Joins tokens with exactly one space in every gap.
+pub fn join_spaced(toks: &[Tok]) -> String {
+    toks.iter().map(|t| t.text.as_str()).collect::<Vec<_>>().join(" ")
+}
+
+pub fn program(stmts: &[Stmt]) -> String {
+    join_pretty(&tokens(stmts))
+}
+
+pub fn program_styled(stmts: &[Stmt], style: &Style) -> String {
+    join_pretty(&tokens_with(stmts, style))
 }
 
 pub fn expr_text(e: &Expr) -> String {
-    let mut s = String::new();
-    expr(e, 0, &Layout::default(), &mut s);
-    s
+    let style = Style::default();
+    let mut em = Emit { toks: Vec::new(), style: &style, expr_counter: 0 };
+    em.expr(e, 0);
+    join_pretty(&em.toks)
 }
 
-/// `min`: the weakest binding strength that may appear here without parentheses.
-/// 0 = anything (statement / initialiser / argument / parenthesised position).
-pub fn expr(e: &Expr, min: u8, l: &Layout, s: &mut String) {
-    match e {
-        Expr::Int { value } => {
-            if *value < 0 {
-                // a negative literal node has no spelling; generators never produce one
-                s.push_str(&format!("(0 - {})", (*value as i128).unsigned_abs()));
-            } else {
-                s.push_str(&value.to_string())
-            }
-        }
-        Expr::Float { value } => s.push_str(&float_text(*value)),
-        Expr::Bool { value } => s.push_str(if *value { "ja" } else { "nee" }),
-        Expr::String { value } => s.push_str(&escape_string(value)),
-        Expr::Identifier(n) => s.push_str(n),
-        Expr::Prefix { operator, right } => {
-            let paren = min > 0;
-            if paren {
-                s.push('(');
-            }
-            s.push_str(op_text(operator));
-            if is_atomic(right) {
-                expr(right, 8, l, s);
-            } else {
-                s.push('(');
-                expr(right, 0, l, s);
-                s.push(')');
-            }
-            if paren {
-                s.push(')');
-            }
-        }
-        Expr::Infix {
-            left,
-            operator,
-            right,
-        } => {
-            let p = prec(operator);
-            let paren = p < min;
-            if paren {
-                s.push('(');
-            }
-            expr(left, p, l, s);
-            s.push_str(&l.gap);
-            s.push_str(op_text(operator));
-            s.push_str(&l.gap);
-            expr(right, p + 1, l, s);
-            if paren {
-                s.push(')');
-            }
-        }
-        Expr::Assign { left, right } => {
-            let paren = min > 0;
-            if paren {
-                s.push('(');
-            }
-            let mut sugared = false;
-            if l.op_assign_sugar {
-                if let (Expr::Identifier(n), Expr::Infix { left: il, operator, right: ir }) = (&**left, &**right) {
-                    if matches!(&**il, Expr::Identifier(m) if m == n) {
-                        s.push_str(n);
-                        s.push_str(&l.gap);
-                        s.push_str(op_text(operator));
-                        s.push('=');
-                        s.push_str(&l.gap);
-                        expr(ir, 0, l, s);
-                        sugared = true;
-                    }
-                }
-            }
-            if !sugared {
-                expr(left, 8, l, s);
-                s.push_str(&l.gap);
-                s.push('=');
-                s.push_str(&l.gap);
-                // the right-hand side is parsed above the level of `=`: another assignment needs parentheses
-                expr(right, 2, l, s);
-            }
-            if paren {
-                s.push(')');
-            }
-        }
-        Expr::If {
-            condition,
-            consequence,
-            alternative,
-        } => {
-            let paren = min > 0;
-            if paren {
-                s.push('(');
-            }
-            s.push_str("als");
-            s.push_str(&l.gap);
-            expr(condition, 0, l, s);
-            s.push_str(&l.gap);
-            block(consequence, l, s);
-            if let Some(a) = alternative {
-                s.push_str(&l.gap);
-                s.push_str("anders");
-                s.push_str(&l.gap);
-                let chain = l.else_if_sugar && a.len() == 1 && matches!(&a[0], Stmt::Expr(Expr::If { .. }));
-                if chain {
-                    if let Stmt::Expr(inner) = &a[0] {
-                        expr(inner, 0, l, s);
-                    }
-                } else {
-                    block(a, l, s);
-                }
-            }
-            if paren {
-                s.push(')');
-            }
-        }
-        Expr::While { condition, body } => {
-            let paren = min > 0;
-            if paren {
-                s.push('(');
-            }
-            s.push_str("zolang");
-            s.push_str(&l.gap);
-            expr(condition, 0, l, s);
-            s.push_str(&l.gap);
-            block(body, l, s);
-            if paren {
-                s.push(')');
-            }
-        }
-        Expr::Function {
-            name,
-            parameters,
-            body,
-        } => {
-            let paren = min > 0;
-            if paren {
-                s.push('(');
-            }
-            s.push_str("functie");
-            if !name.is_empty() {
-                s.push(' ');
-                s.push_str(name);
-            }
-            s.push('(');
-            for (i, p) in parameters.iter().enumerate() {
-                if i > 0 {
-                    s.push_str(&l.item_sep);
-                }
-                s.push_str(p);
-            }
-            s.push(')');
-            s.push_str(&l.gap);
-            block(body, l, s);
-            if paren {
-                s.push(')');
-            }
-        }
-        Expr::Call { left, arguments } => {
-            match &**left {
-                Expr::Identifier(n) => s.push_str(n),
-                other => {
-                    s.push('(');
-                    expr(other, 0, l, s);
-                    s.push(')');
-                }
-            }
-            s.push('(');
-            for (i, a) in arguments.iter().enumerate() {
-                if i > 0 {
-                    s.push_str(&l.item_sep);
-                }
-                expr(a, 0, l, s);
-            }
-            s.push(')');
-        }
-        Expr::Array { values } => {
-            s.push('[');
-            for (i, a) in values.iter().enumerate() {
-                if i > 0 {
-                    s.push_str(&l.item_sep);
-                }
-                expr(a, 0, l, s);
-            }
-            s.push(']');
-        }
-        Expr::Index { left, index } => {
-            expr(left, 8, l, s);
-            s.push('[');
-            expr(index, 0, l, s);
-            s.push(']');
-        }
+/// May these two tokens stand next to each other with nothing in between, by the documented token
+/// shapes (maximal munch)? Decided from the spellings, not from the lexer.
+pub fn may_touch(a: &str, b: &str) -> bool {
+    let la = a.chars().last().unwrap_or(' ');
+    let fb = b.chars().next().unwrap_or(' ');
+    let wordish = |c: char| c.is_alphanumeric() || c == '_';
+    if wordish(la) && wordish(fb) {
+        return false;
     }
+    // a number followed by a dot-led or digit-led token, and a dot after digits
+    if la.is_ascii_digit() && fb == '.' {
+        return false;
+    }
+    if la == '.' && fb.is_ascii_digit() {
+        return false;
+    }
+    // two-character operators and the comment marker
+    let pair = format!("{la}{fb}");
+    if matches!(pair.as_str(), "==" | "!=" | "<=" | ">=" | "&&" | "||" | "//") {
+        return false;
+    }
+    true
 }
